@@ -330,7 +330,7 @@ fn main() {
     });
 
     // S3b sparse tails behind the rounding digit ({:.N} and {:.Ne})
-    let tail_lens: Vec<usize> = if tier.is_thorough() { (0..=72).chain([100, 127, 128, 129]).collect() } else { (0..=40).chain([63, 64, 65]).collect() };
+    let tail_lens: Vec<usize> = if tier.is_thorough() { (0..=72).chain([100, 127, 128, 129, 255, 256, 257, 1023, 1024, 1025, 1100, 1500, 2100, 4100]).collect() } else { (0..=40).chain([63, 64, 65, 257, 1100, 1500]).collect() };
     let tails = sparse_tails(&tail_lens);
     run.bound("S3b_tail_lengths", json!(tail_lens));
     run.par("S3b sparse tails (one non-zero digit at every position)", tails.len(), |i| {
